@@ -2115,6 +2115,8 @@ pub mod verif {
         nfa: NFA<()>,
         /// register as item tag (decoder is not called) instead of matcher index
         as_item: bool,
+        /// decoder rejects (returns `None` for) matches of odd length
+        reject_odd: bool,
     }
 
     impl Matcher for PatternMatcher {
@@ -2134,6 +2136,9 @@ pub mod verif {
         }
 
         fn decode(&self, data: &[u8]) -> Option<Self::Item> {
+            if self.reject_odd && data.len() % 2 == 1 {
+                return None;
+            }
             Some((self.index, data.to_vec()))
         }
     }
@@ -2150,12 +2155,23 @@ pub mod verif {
     impl Tokenizer {
         /// Patterns must not contain tags, second component selects item registration
         pub fn new(patterns: impl IntoIterator<Item = (NFA<()>, bool)>) -> Self {
+            Self::with_rejects(
+                patterns
+                    .into_iter()
+                    .map(|(nfa, as_item)| (nfa, as_item, false)),
+            )
+        }
+
+        /// Same as [Tokenizer::new], third component makes the decoder of the pattern reject
+        /// (return `None` for) matches of odd length, such matches surface as unrecognized bytes
+        pub fn with_rejects(patterns: impl IntoIterator<Item = (NFA<()>, bool, bool)>) -> Self {
             let automata = MatcherAutomata::new(patterns.into_iter().enumerate().map(
-                |(index, (nfa, as_item))| {
+                |(index, (nfa, as_item, reject_odd))| {
                     Box::new(PatternMatcher {
                         index,
                         nfa,
                         as_item,
+                        reject_odd,
                     }) as Box<dyn Matcher<Item = (usize, Vec<u8>)>>
                 },
             ));
